@@ -77,6 +77,9 @@ def reset_globals():
     if isinstance(stats, dict):
         stats.clear()
     singleton.clear_true_singleton()
+    from eglib import h
+
+    h._RECENT.clear()
 
 
 def case_hash(case) -> int:
